@@ -75,9 +75,31 @@ Datum(e) ==
                     lst == IF IsErr(f) THEN <<>> ELSE (IF f.mt = 6 THEN f.kids[1].kids ELSE f.kids)
                     have == {Span(e.r.pair.ws, lst[j]) : j \in 1..Len(lst)} IN
                 Chk(e.bytes \in have /\ e.r.pair.fresh \in have, P, "Datum/lost-or-re-encoded-in-a-witness-set", e.sc, [bytes |-> e.bytes, fresh |-> e.r.pair.fresh, ws |-> e.r.pair.ws]))
+\* ---- read-only views (FixedTransactionBody alone, inside FixedBlock / FixedVersionedBlock): what a view reports as original bytes is
+\* the SPAN of that body in the input, its hash is Blake2b-256 of that span, and the decoded body carries the data of that span
+ViewOne(v, span, sc, where, dev) ==
+  /\ Chk(v.orig = span, P, "View/" \o where \o "/original-bytes-differ-from-the-span-in-the-input/" \o dev, sc, [got |-> v.orig, span |-> span])
+  /\ Emit([t |-> "HASHCHK", p |-> P, sig |-> "View/" \o where \o "/transaction-hash-not-of-original-body-bytes/" \o dev, sc |-> sc, alg |-> "blake2b256", pre |-> span, expect |-> v.hash])
+  /\ (dev \notin {"dupkey", "drop", "swap"} =>
+        LET a == Parse(v.body) b == Parse(span) IN Chk(~IsErr(a) /\ ~IsErr(b) /\ SameData(a, b), P, "View/" \o where \o "/decoded-body-carries-other-data/" \o dev, sc, [body |-> v.body]))
+View(e) ==
+  LET sc == e.sc B == Parse(e.block) IN
+  /\ UNCHANGED <<orig, touched, addedV, addedB, alive>>
+  /\ Obl(P, sc, <<"view", e.dev, Has(e.alone, "ok"), Has(e.in_block, "ok"), Has(e.in_vblock, "ok")>>)
+  /\ IF Has(e.alone, "panic") THEN Fail(P, "View/alone/panic/" \o e.dev, sc, e.alone.panic)
+     ELSE IF ~Has(e.alone, "ok") THEN Note(P, "body-encoding-not-accepted-by-the-view", sc, [dev |-> e.dev])
+     ELSE ViewOne(e.alone, e.body_in, sc, "alone", e.dev)
+  /\ \A w \in {"in_block", "in_vblock"} :
+       LET r == e[w] IN
+       IF Has(r, "panic") THEN Fail(P, "View/" \o w \o "/panic/" \o e.dev, sc, r.panic)
+       ELSE IF ~Has(r, "ok") THEN Note(P, "block-not-accepted-by-the-view", sc, [dev |-> e.dev, where |-> w])
+       ELSE IF IsErr(B) \/ B.mt # 4 \/ Len(B.kids) < 2 THEN Emit([t |-> "TOOLFAIL", what |-> "harness built a malformed block", sc |-> sc])
+       ELSE LET bodies == B.kids[2].kids IN
+            /\ Chk(r.n = Len(bodies), P, "View/" \o w \o "/number-of-bodies/" \o e.dev, sc, [n |-> r.n])
+            /\ \A j \in 1..(IF r.n < Len(bodies) THEN r.n ELSE Len(bodies)) : ViewOne(r.txs[j], Span(e.block, bodies[j]), sc, w, e.dev)
 Init == l = 1 /\ orig = <<>> /\ touched = {} /\ addedV = <<>> /\ addedB = <<>> /\ alive = FALSE
 Next == /\ l <= Len(Rec)
-        /\ LET e == Rec[l] IN CASE e.ev = "Load" -> Load(e) [] e.ev = "Sign" -> Sign(e) [] OTHER -> Datum(e)
+        /\ LET e == Rec[l] IN CASE e.ev = "Load" -> Load(e) [] e.ev = "Sign" -> Sign(e) [] e.ev = "View" -> View(e) [] OTHER -> Datum(e)
         /\ (l = Len(Rec) => Done(l))
         /\ l' = l + 1
 ====
